@@ -182,6 +182,18 @@ func runC08(r *Rand, tier string, o *Out) {
 			check("reflect", "reflection decoder, raw data", "dec.reflect", sigh, enc, "")
 		}
 	}
+	// a long list of elements of a fixed size followed by another member, cut at sixty places (the last bytes among them)
+	for _, n := range []int{1025, 2600} {
+		l := &tval{kind: '['}
+		for j := 0; j < n; j++ {
+			l.elems = append(l.elems, &tval{kind: 'n', n: uint64(j*5 + 2)})
+		}
+		t := parseSigT("([I]I)")
+		enc := encD(t, &tval{kind: '(', elems: []*tval{l, {kind: 'n', n: 9}}})
+		sigh := hx([]byte("([I]I)")) + " "
+		check("reader", "signature-driven reader, a long list of fixed-size elements", "rd.read", sigh, enc, "")
+		check("reflect", "reflection decoder, a long list of fixed-size elements", "dec.reflect", sigh, enc, "")
+	}
 	for i := 0; i < rounds; i++ {
 		// typed data of a random signature: signature-driven reader and reflection decoder
 		t := genCodecSig(r, 1+r.Intn(3), false)
